@@ -674,11 +674,11 @@ Proof.
     - intros t' rc H. rewrite Hc.
       destruct (N.eqb_spec rc (tmp h)) as [->|_]; [exfalso; eapply Dv; eauto|].
       destruct (N.eqb_spec rc (ncell (hc h))) as [E|_]; [|reflexivity].
-      exfalso. eapply Hfr; eauto.
+      exfalso. apply (Hfr rc); [eapply Lv; eauto|exact E].
     - intros r a k H. rewrite Hc.
       destruct (N.eqb_spec k (tmp h)) as [->|_]; [exfalso; eapply Dr; eauto|].
       destruct (N.eqb_spec k (ncell (hc h))) as [E|_]; [|reflexivity].
-      exfalso. eapply Hfr; eauto.
+      exfalso. apply (Hfr k); [eapply Lr; eauto|exact E].
     - intros k p H. unfold holds in H. rewrite Hc in H. destruct (k =? tmp h); [discriminate|].
       destruct (k =? ncell (hc h)).
       + apply (r_ptr_fresh _ _ _ HR (tmp h)). unfold holds. congruence.
@@ -693,4 +693,424 @@ Proof.
   - exact (Slot _ eq_refl).
   - apply NoSlot. reflexivity.
   - exact (Slot _ eq_refl).
+Qed.
+
+(* ---- records change ------------------------------------------------------------------------- *)
+Lemma rec_rel_done c s1 s2 x y : done s1 = done s2 -> rec_rel c s1 x y -> rec_rel c s2 x y.
+Proof.
+  intros E (H1 & H2 & H3). repeat split; auto.
+  destruct (rslot (snd x)), (sslot (snd y)); auto. unfold cell_ok, sref_val in *. now rewrite <- E.
+Qed.
+
+Lemma F2_impl {A B} (P Q : A -> B -> Prop) l sl :
+  (forall x y, P x y -> Q x y) -> Forall2 P l sl -> Forall2 Q l sl.
+Proof. intro Hi. induction 1; constructor; auto. Qed.
+
+Lemma R_change h s c' recs' srecs' :
+  R h s [] -> good c' ->
+  (forall t rc, In (t, rc) (vms h) -> get (cells c') rc = get (cells (hc h)) rc) ->
+  Forall2 (rec_rel c' s) recs' srecs' ->
+  (forall r a r' a' c, In (r, mkRec a (Some c)) recs' -> In (r', mkRec a' (Some c)) recs' -> r = r') ->
+  (forall t r a c, In (t, c) (vms h) -> In (r, mkRec a (Some c)) recs' -> False) ->
+  (forall k p, holds c' k p -> p < ncall h) ->
+  NoDup (map fst recs') -> (forall rid, In rid (map fst recs') -> rid < nrec h) ->
+  R (mkHeap c' (vms h) recs' (nrec h) (ncall h) (ninst h) (tmp h))
+    (mkStore (alive s) (done s) srecs' (snrec s) (sncall s)) [].
+Proof.
+  intros HR G Hv HF Hd1 Hd2 Hp Hk Hf.
+  constructor; sp.
+  - exact G.
+  - apply (r_nrec _ _ _ HR).
+  - apply (r_ncall _ _ _ HR).
+  - apply (r_alive _ _ _ HR).
+  - apply (r_ninst _ _ _ HR).
+  - eapply F2_impl; [|exact HF]. intros x y. now apply rec_rel_done.
+  - intros t rc H. rewrite (Hv _ _ H). now apply (r_vms _ _ _ HR).
+  - apply (r_nd_alive _ _ _ HR).
+  - apply (r_pending _ _ _ HR).
+  - intros c rf [].
+  - exact Hd1.
+  - exact Hd2.
+  - intros c rf [].
+  - exact Hp.
+  - apply (r_done_fresh _ _ _ HR).
+  - apply (r_alive_fresh _ _ _ HR).
+  - exact Hk.
+  - exact Hf.
+Qed.
+
+Lemma in_amap_upd {A} r (y : A) k z l :
+  In (k, z) (amap (fun k b => if k =? r then y else b) l) ->
+  (k = r /\ z = y) \/ (k <> r /\ In (k, z) l).
+Proof.
+  intro H. apply in_amap in H. destruct H as [a [Hin E]].
+  destruct (N.eqb_spec k r) as [->|Hn]; [left; now split|right; subst; now split].
+Qed.
+
+Lemma lookup_unique {A} r (x x' : A) l : NoDup (map fst l) -> lookup r l = Some x -> In (r, x') l -> x' = x.
+Proof.
+  intros Hnd Hl Hin. apply (in_lookup _ _ _ Hnd) in Hin. congruence.
+Qed.
+
+Lemma rec_rel_inv c s r a o y : rec_rel c s (r, mkRec a o) (r, y) ->
+  match o with
+  | None => y = mkSRec a None
+  | Some k => exists rf, y = mkSRec a (Some rf) /\ cell_ok c s k rf
+  end.
+Proof.
+  intros (_ & H2 & H3). cbn in *. destruct y as [a' o']. cbn in *. subst a'.
+  destruct o, o'; try tauto. now exists s0.
+Qed.
+
+Lemma rec_copy_R r h s : R h s [] -> R (rec_copy r h) (s_copy r s) [].
+Proof.
+  intro HR. unfold rec_copy, s_copy.
+  destruct (lookup r (recs h)) as [[a [c|]]|] eqn:El.
+  - destruct (F2_lookup_some _ (rec_rel_key _ _) _ _ _ _ (r_recs _ _ _ HR) El) as [y [Ey Hy]].
+    rewrite Ey. apply rec_rel_inv in Hy. destruct Hy as [rf [-> Hok]].
+    pose proof (r_good _ _ _ HR) as G0.
+    destruct (copy_construct_ok (hc h) c _ G0 Hok) as (G1 & S1 & N1 & C1).
+    destruct (copy_construct (hc h) c) as [c1 c'] eqn:Ec. cbn [fst snd] in *. subst c'.
+    destruct (tracked_live _ _ _ HR) as (Lv & Lr & _).
+    assert (Hfr : forall k, live (hc h) k -> k <> ncell (hc h)).
+    { intros k Hk E. subst. apply Hk. destruct G0 as [_ [_ _ Hf]]. apply Hf. lia. }
+    apply (R_add_rec h s _ _ a (Some (ncell (hc h))) (Some rf) (tmp h) HR); auto.
+    + intros t rc H. rewrite C1. destruct (N.eqb_spec rc (ncell (hc h))) as [E|_]; [|reflexivity].
+      exfalso. apply (Hfr rc); [eapply Lv; eauto|exact E].
+    + intros r0 a0 k H. rewrite C1. destruct (N.eqb_spec k (ncell (hc h))) as [E|_]; [|reflexivity].
+      exfalso. apply (Hfr k); [eapply Lr; eauto|exact E].
+    + intros k p H. unfold holds in H. rewrite C1 in H. destruct (k =? ncell (hc h)).
+      * apply (r_ptr_fresh _ _ _ HR c). unfold holds. congruence.
+      * now apply (r_ptr_fresh _ _ _ HR k).
+    + split.
+      * intro Hk. apply (Hfr _ Hk). reflexivity.
+      * unfold cell_ok. rewrite C1, N.eqb_refl. reflexivity.
+  - destruct (F2_lookup_some _ (rec_rel_key _ _) _ _ _ _ (r_recs _ _ _ HR) El) as [y [Ey Hy]].
+    rewrite Ey. apply rec_rel_inv in Hy. subst y.
+    apply (R_add_rec h s [] (hc h) a None None (tmp h) HR); auto.
+    + apply (r_good _ _ _ HR).
+    + apply (r_ptr_fresh _ _ _ HR).
+  - rewrite (F2_lookup_none _ (rec_rel_key _ _) _ _ _ (r_recs _ _ _ HR) El). exact HR.
+Qed.
+
+Lemma rec_destroy_R r h s : R h s [] -> R (rec_destroy r h) (s_destroy r s) [].
+Proof.
+  intro HR. unfold rec_destroy, s_destroy.
+  pose proof (r_good _ _ _ HR) as G0.
+  destruct (tracked_live _ _ _ HR) as (Lv & Lr & _).
+  assert (Hkeys : NoDup (map fst (del r (recs h)))).
+  { rewrite map_fst_del. apply nodup_delN. apply (r_rec_keys _ _ _ HR). }
+  assert (Hfr : forall rid, In rid (map fst (del r (recs h))) -> rid < nrec h).
+  { intros rid H. rewrite map_fst_del in H. apply in_delN in H. apply (r_rec_fresh _ _ _ HR). tauto. }
+  destruct (lookup r (recs h)) as [[a [c|]]|] eqn:El.
+  - assert (Hin : In (r, mkRec a (Some c)) (recs h)) by now apply lookup_in.
+    destruct (destroy_ok (hc h) c G0) as (G1 & C1 & N1); [eapply Lr; eauto|].
+    apply R_change; auto.
+    + intros t rc H. rewrite C1, gso; [reflexivity|]. intro E. subst. eapply (r_d_vr _ _ _ HR); eauto.
+    + eapply recs_transfer; [apply F2_del; [apply rec_rel_key|apply (r_recs _ _ _ HR)]|].
+      intros r0 a0 k rf Hk. apply cell_ok_frame; [reflexivity|].
+      rewrite C1, gso; [reflexivity|]. intro E. subst. apply in_del in Hk. destruct Hk as [Hk Hn].
+      apply Hn. eapply (r_d_recs _ _ _ HR); eauto.
+    + intros r1 a1 r2 a2 k H1 H2. apply in_del in H1. apply in_del in H2.
+      eapply (r_d_recs _ _ _ HR); [apply H1|apply H2].
+    + intros t r1 a1 k H1 H2. apply in_del in H2. eapply (r_d_vr _ _ _ HR); [apply H1|apply H2].
+    + intros k p H. unfold holds in H. rewrite C1, get_set in H. destruct (k =? c); [discriminate|].
+      now apply (r_ptr_fresh _ _ _ HR k).
+  - apply R_change; auto.
+    + apply F2_del; [apply rec_rel_key|apply (r_recs _ _ _ HR)].
+    + intros r1 a1 r2 a2 k H1 H2. apply in_del in H1. apply in_del in H2.
+      eapply (r_d_recs _ _ _ HR); [apply H1|apply H2].
+    + intros t r1 a1 k H1 H2. apply in_del in H2. eapply (r_d_vr _ _ _ HR); [apply H1|apply H2].
+    + apply (r_ptr_fresh _ _ _ HR).
+  - assert (E : del r (srecs s) = srecs s).
+    { apply del_notin. rewrite <- (F2_keys _ _ _ (rec_rel_key _ _) (r_recs _ _ _ HR)).
+      now apply lookup_none_notin. }
+    rewrite E, store_eta. exact HR.
+Qed.
+
+Lemma rec_reserve_R r h s : R h s [] -> R (rec_reserve r h) s [].
+Proof.
+  intro HR. unfold rec_reserve.
+  destruct (lookup r (recs h)) as [[a [c|]]|] eqn:El; try exact HR.
+  destruct (F2_lookup_some _ (rec_rel_key _ _) _ _ _ _ (r_recs _ _ _ HR) El) as [y [Ey Hy]].
+  apply rec_rel_inv in Hy. destruct Hy as [rf [-> Hok]].
+  pose proof (r_good _ _ _ HR) as G0.
+  pose proof (r_rec_keys _ _ _ HR) as Hkeys.
+  assert (Hin : In (r, mkRec a (Some c)) (recs h)) by now apply lookup_in.
+  destruct (copy_construct_ok (hc h) c _ G0 Hok) as (G1 & S1 & N1 & C1).
+  destruct (copy_construct (hc h) c) as [c1 c'] eqn:Ec. cbn [fst snd] in *. subst c'.
+  destruct (tracked_live _ _ _ HR) as (Lv & Lr & _).
+  assert (Hfr : forall k, live (hc h) k -> k <> ncell (hc h)).
+  { intros k Hk E. subst. apply Hk. destruct G0 as [_ [_ _ Hf]]. apply Hf. lia. }
+  assert (Hcn : c <> ncell (hc h)) by (apply Hfr; eapply Lr; eauto).
+  destruct (destroy_ok c1 c G1) as (G2 & C2 & N2).
+  { unfold live. rewrite C1. destruct (N.eqb_spec c (ncell (hc h))); [contradiction|]. apply (Lr _ _ _ Hin). }
+  assert (Hc : forall k, get (cells (destroy c1 c)) k =
+             if k =? c then None else if k =? ncell (hc h) then Some (sref_val s rf) else get (cells (hc h)) k).
+  { intro k. rewrite C2, get_set, C1. reflexivity. }
+  rewrite <- (store_eta s).
+  rewrite (upd_amap _ _ _ Hkeys).
+  rewrite <- (amap_id (srecs s)).
+  apply R_change; auto.
+  - intros t rc H. rewrite Hc.
+    destruct (N.eqb_spec rc c) as [->|_]; [exfalso; eapply (r_d_vr _ _ _ HR); eauto|].
+    destruct (N.eqb_spec rc (ncell (hc h))) as [E|_]; [|reflexivity].
+    exfalso. apply (Hfr rc); [eapply Lv; eauto|exact E].
+  - eapply F2_amap; [apply (r_recs _ _ _ HR)|].
+    intros [k x] [k' y] Hx Hy Hxy. pose proof (rec_rel_key _ _ _ _ Hxy) as Ek. cbn in Ek. subst k'. cbn [fst snd].
+    destruct (N.eqb_spec k r) as [->|Hn].
+    + assert (x = mkRec a (Some c)) by (eapply lookup_unique; eauto). subst x.
+      assert (Hy' : lookup r (srecs s) = Some y).
+      { apply in_lookup; [|exact Hy]. rewrite <- (F2_keys _ _ _ (rec_rel_key _ _) (r_recs _ _ _ HR)). exact Hkeys. }
+      assert (y = mkSRec a (Some rf)) by congruence. subst y.
+      repeat split; cbn. unfold cell_ok. rewrite Hc.
+      destruct (N.eqb_spec (ncell (hc h)) c); [congruence|]. now rewrite N.eqb_refl.
+    + destruct x as [ax [kx|]]; destruct Hxy as (H1 & H2 & H3); cbn [fst snd rargs rslot sargs sslot] in *;
+        (split; [reflexivity|]); (split; [exact H2|]); cbn [fst snd rargs rslot sargs sslot]; auto.
+      destruct (sslot y) as [rfy|]; [|exact H3].
+      eapply cell_ok_frame; [reflexivity| |exact H3]. rewrite Hc.
+      destruct (N.eqb_spec kx c) as [->|_]; [exfalso; apply Hn; eapply (r_d_recs _ _ _ HR); eauto|].
+      destruct (N.eqb_spec kx (ncell (hc h))) as [E|_]; [|reflexivity].
+      exfalso. apply (Hfr kx); [eapply Lr; eauto|exact E].
+  - intros r1 a1 r2 a2 k H1 H2. apply in_amap_upd in H1. apply in_amap_upd in H2.
+    destruct H1 as [[-> E1]|[N1' H1]], H2 as [[-> E2]|[N2' H2]].
+    + reflexivity.
+    + injection E1 as _ ->. exfalso. apply (Hfr _ (Lr _ _ _ H2)). reflexivity.
+    + injection E2 as _ ->. exfalso. apply (Hfr _ (Lr _ _ _ H1)). reflexivity.
+    + eapply (r_d_recs _ _ _ HR); eauto.
+  - intros t r1 a1 k H1 H2. apply in_amap_upd in H2. destruct H2 as [[-> E2]|[N2' H2]].
+    + injection E2 as _ ->. apply (Hfr _ (Lv _ _ H1)). reflexivity.
+    + eapply (r_d_vr _ _ _ HR); eauto.
+  - intros k p H. unfold holds in H. rewrite Hc in H. destruct (k =? c); [discriminate|].
+    destruct (k =? ncell (hc h)).
+    + apply (r_ptr_fresh _ _ _ HR c). unfold holds. congruence.
+    + now apply (r_ptr_fresh _ _ _ HR k).
+  - rewrite map_fst_amap. exact Hkeys.
+  - rewrite map_fst_amap. apply (r_rec_fresh _ _ _ HR).
+Qed.
+
+Lemma slot_corr r h s : R h s [] ->
+  match slot_of r h, sslot_of r s with
+  | None, None => True
+  | Some k, Some rf =>
+      exists a, lookup r (recs h) = Some (mkRec a (Some k)) /\
+                lookup r (srecs s) = Some (mkSRec a (Some rf)) /\ cell_ok (hc h) s k rf
+  | _, _ => False
+  end.
+Proof.
+  intro HR. unfold slot_of, sslot_of.
+  destruct (lookup r (recs h)) as [[a [k|]]|] eqn:El.
+  - destruct (F2_lookup_some _ (rec_rel_key _ _) _ _ _ _ (r_recs _ _ _ HR) El) as [y [Ey Hy]].
+    apply rec_rel_inv in Hy. destruct Hy as [rf [-> Hok]]. rewrite Ey. cbn. now exists a.
+  - destruct (F2_lookup_some _ (rec_rel_key _ _) _ _ _ _ (r_recs _ _ _ HR) El) as [y [Ey Hy]].
+    apply rec_rel_inv in Hy. subst y. rewrite Ey. exact I.
+  - rewrite (F2_lookup_none _ (rec_rel_key _ _) _ _ _ (r_recs _ _ _ HR) El). exact I.
+Qed.
+
+Lemma skeys h s xs : R h s xs -> NoDup (map fst (srecs s)).
+Proof.
+  intro HR. rewrite <- (F2_keys _ _ _ (rec_rel_key _ _) (r_recs _ _ _ HR)). apply (r_rec_keys _ _ _ HR).
+Qed.
+
+Lemma rec_assign_R r1 r2 h s : R h s [] -> R (rec_assign r1 r2 h) (s_assign r1 r2 s) [].
+Proof.
+  intro HR. unfold rec_assign, s_assign.
+  destruct (N.eqb_spec r1 r2) as [E|Hne]; [exact HR|].
+  pose proof (slot_corr r1 h s HR) as H1. pose proof (slot_corr r2 h s HR) as H2.
+  destruct (slot_of r1 h) as [ka|], (sslot_of r1 s) as [rfa|]; try tauto; try exact HR;
+    destruct (slot_of r2 h) as [kb|], (sslot_of r2 s) as [rfb|]; try tauto; try exact HR.
+  destruct H1 as (a1 & L1 & S1 & O1). destruct H2 as (a2 & L2 & S2 & O2).
+  pose proof (r_good _ _ _ HR) as G0.
+  pose proof (r_rec_keys _ _ _ HR) as Hkeys.
+  assert (I1 : In (r1, mkRec a1 (Some ka)) (recs h)) by now apply lookup_in.
+  assert (I2 : In (r2, mkRec a2 (Some kb)) (recs h)) by now apply lookup_in.
+  assert (Hab : ka <> kb) by (intro E; subst; apply Hne; eapply (r_d_recs _ _ _ HR); eauto).
+  destruct (tracked_live _ _ _ HR) as (Lv & Lr & _).
+  destruct (copy_assign_ok (hc h) ka kb _ G0 Hab (Lr _ _ _ I1) O2) as (G1 & C1 & N1).
+  unfold with_hc, set_slot. rewrite S1. cbn [sargs].
+  rewrite (upd_amap _ _ _ (skeys _ _ _ HR)).
+  rewrite <- (amap_id (recs h)).
+  apply R_change; auto.
+  - intros t rc H. rewrite C1, gso; [reflexivity|]. intro E. subst. eapply (r_d_vr _ _ _ HR); eauto.
+  - eapply F2_amap; [apply (r_recs _ _ _ HR)|].
+    intros [k x] [k' y] Hx Hy Hxy. pose proof (rec_rel_key _ _ _ _ Hxy) as Ek. cbn in Ek. subst k'. cbn [fst snd].
+    destruct (N.eqb_spec k r1) as [->|Hn].
+    + assert (x = mkRec a1 (Some ka)) by (eapply lookup_unique; eauto). subst x.
+      repeat split; cbn [fst snd rargs rslot sargs sslot]. unfold cell_ok. rewrite C1, gss. reflexivity.
+    + destruct x as [ax [kx|]]; destruct Hxy as (E1 & E2 & E3); cbn [fst snd rargs rslot sargs sslot] in *;
+        (split; [reflexivity|]); (split; [exact E2|]); cbn [fst snd rargs rslot sargs sslot]; auto.
+      destruct (sslot y) as [rfy|]; [|exact E3].
+      eapply cell_ok_frame; [reflexivity| |exact E3]. rewrite C1, gso; [reflexivity|].
+      intro E. subst. apply Hn. eapply (r_d_recs _ _ _ HR); eauto.
+  - rewrite amap_id. apply (r_d_recs _ _ _ HR).
+  - rewrite amap_id. apply (r_d_vr _ _ _ HR).
+  - intros k p H. unfold holds in H. rewrite C1, get_set in H. destruct (k =? ka).
+    + apply (r_ptr_fresh _ _ _ HR kb). unfold holds. congruence.
+    + now apply (r_ptr_fresh _ _ _ HR k).
+  - rewrite amap_id. exact Hkeys.
+  - rewrite amap_id. apply (r_rec_fresh _ _ _ HR).
+Qed.
+
+Lemma lookup_upd_other {A} r r' (y : A) l : r <> r' -> lookup r (upd r' y l) = lookup r l.
+Proof.
+  intro Hn. induction l as [|[k a] l IH]; cbn; [reflexivity|].
+  destruct (N.eqb_spec k r') as [->|Hk]; cbn.
+  - destruct (N.eqb_spec r' r); [congruence|reflexivity].
+  - destruct (k =? r); [reflexivity|exact IH].
+Qed.
+
+Lemma amap_amap {A} (f g : N -> A -> A) l : amap g (amap f l) = amap (fun k b => g k (f k b)) l.
+Proof. unfold amap. rewrite map_map. reflexivity. Qed.
+
+Lemma rec_massign_R r1 r2 h s : R h s [] -> R (rec_massign r1 r2 h) (s_massign r1 r2 s) [].
+Proof.
+  intro HR. unfold rec_massign, s_massign.
+  destruct (N.eqb_spec r1 r2) as [E|Hne]; [exact HR|].
+  pose proof (slot_corr r1 h s HR) as H1. pose proof (slot_corr r2 h s HR) as H2.
+  destruct (slot_of r1 h) as [ka|], (sslot_of r1 s) as [rfa|]; try tauto; try exact HR;
+    destruct (slot_of r2 h) as [kb|], (sslot_of r2 s) as [rfb|]; try tauto; try exact HR.
+  destruct H1 as (a1 & L1 & S1 & O1). destruct H2 as (a2 & L2 & S2 & O2).
+  pose proof (r_good _ _ _ HR) as G0.
+  pose proof (r_rec_keys _ _ _ HR) as Hkeys.
+  pose proof (skeys _ _ _ HR) as Hsk.
+  assert (I1 : In (r1, mkRec a1 (Some ka)) (recs h)) by now apply lookup_in.
+  assert (I2 : In (r2, mkRec a2 (Some kb)) (recs h)) by now apply lookup_in.
+  assert (Hab : ka <> kb) by (intro E; subst; apply Hne; eapply (r_d_recs _ _ _ HR); eauto).
+  destruct (tracked_live _ _ _ HR) as (Lv & Lr & _).
+  destruct (move_assign_ok (hc h) ka kb _ G0 Hab (Lr _ _ _ I1) O2) as (G1 & C1 & N1).
+  unfold with_hc, set_slot. rewrite S1. cbn [sargs].
+  rewrite lookup_upd_other by congruence. rewrite S2. cbn [sargs].
+  rewrite (upd_amap r1 _ _ Hsk).
+  rewrite upd_amap by (rewrite map_fst_amap; exact Hsk).
+  rewrite amap_amap.
+  rewrite <- (amap_id (recs h)).
+  assert (Hc : forall k, get (cells (move_assign (hc h) ka kb)) k =
+             if k =? kb then Some (VD DNil) else if k =? ka then Some (sref_val s rfb) else get (cells (hc h)) k).
+  { intro k. rewrite C1, !get_set. reflexivity. }
+  apply R_change; auto.
+  - intros t rc H. rewrite Hc.
+    destruct (N.eqb_spec rc kb) as [->|_]; [exfalso; eapply (r_d_vr _ _ _ HR); eauto|].
+    destruct (N.eqb_spec rc ka) as [->|_]; [exfalso; eapply (r_d_vr _ _ _ HR); eauto|reflexivity].
+  - eapply F2_amap; [apply (r_recs _ _ _ HR)|].
+    intros [k x] [k' y] Hx Hy Hxy. pose proof (rec_rel_key _ _ _ _ Hxy) as Ek. cbn in Ek. subst k'. cbn [fst snd].
+    destruct (N.eqb_spec k r2) as [->|Hn2].
+    + assert (x = mkRec a2 (Some kb)) by (eapply lookup_unique; eauto). subst x.
+      repeat split; cbn [fst snd rargs rslot sargs sslot]. unfold cell_ok. rewrite Hc, N.eqb_refl. reflexivity.
+    + destruct (N.eqb_spec k r1) as [->|Hn1].
+      * assert (x = mkRec a1 (Some ka)) by (eapply lookup_unique; eauto). subst x.
+        repeat split; cbn [fst snd rargs rslot sargs sslot]. unfold cell_ok. rewrite Hc, N.eqb_refl.
+        destruct (N.eqb_spec ka kb); [contradiction|reflexivity].
+      * destruct x as [ax [kx|]]; destruct Hxy as (E1 & E2 & E3); cbn [fst snd rargs rslot sargs sslot] in *;
+          (split; [reflexivity|]); (split; [exact E2|]); cbn [fst snd rargs rslot sargs sslot]; auto.
+        destruct (sslot y) as [rfy|]; [|exact E3].
+        eapply cell_ok_frame; [reflexivity| |exact E3]. rewrite Hc.
+        destruct (N.eqb_spec kx kb) as [->|_]; [exfalso; apply Hn2; eapply (r_d_recs _ _ _ HR); eauto|].
+        destruct (N.eqb_spec kx ka) as [->|_]; [exfalso; apply Hn1; eapply (r_d_recs _ _ _ HR); eauto|reflexivity].
+  - rewrite amap_id. apply (r_d_recs _ _ _ HR).
+  - rewrite amap_id. apply (r_d_vr _ _ _ HR).
+  - intros k p H. unfold holds in H. rewrite Hc in H. destruct (k =? kb); [discriminate|]. destruct (k =? ka).
+    + apply (r_ptr_fresh _ _ _ HR kb). unfold holds. congruence.
+    + now apply (r_ptr_fresh _ _ _ HR k).
+  - rewrite amap_id. exact Hkeys.
+  - rewrite amap_id. apply (r_rec_fresh _ _ _ HR).
+Qed.
+
+(* ---- Reset ----------------------------------------------------------------------------------- *)
+Lemma reset_cells l : forall c,
+  good c -> NoDup (map snd l) ->
+  (forall t rc, In (t, rc) l -> get (cells c) rc = Some (VPtr t)) ->
+  let c' := fold_left (fun c (x : N * N) => destroy c (snd x)) l c in
+  good c' /\ forall k, get (cells c') k = if existsb (N.eqb k) (map snd l) then None else get (cells c) k.
+Proof.
+  induction l as [|[t rc] l IH]; intros c G Hnd Hv; cbn [fold_left map existsb snd].
+  - split; [exact G|reflexivity].
+  - inversion Hnd as [|x l' Hn Hnd']; subst.
+    destruct (destroy_ok c rc G) as (G1 & C1 & N1).
+    { unfold live. rewrite (Hv t rc); [discriminate|now left]. }
+    destruct (IH (destroy c rc) G1 Hnd') as (G2 & C2).
+    { intros t' rc' H. rewrite C1, gso; [apply Hv; now right|].
+      intro E. subst. apply Hn. apply in_map_iff. exists (t', rc). now split. }
+    split; [exact G2|]. intro k. rewrite C2, C1, get_set.
+    destruct (N.eqb_spec k rc) as [->|Hk]; cbn; [|reflexivity].
+    destruct (existsb (N.eqb rc) (map snd l)); reflexivity.
+Qed.
+
+Lemma heap_reset_R h s : R h s [] -> R (heap_reset h) (s_reset s) [].
+Proof.
+  intro HR. unfold heap_reset, s_reset.
+  assert (Hnd : NoDup (map snd (vms h))).
+  { pose proof (vms_nodup_fst _ _ _ HR) as Hf.
+    assert (Hinj : forall t t' rc, In (t, rc) (vms h) -> In (t', rc) (vms h) -> t = t')
+      by (intros; eapply vms_same_cell; eauto).
+    revert Hf Hinj. generalize (vms h). induction l as [|[t rc] l IH]; cbn; intros Hf Hinj; [constructor|].
+    inversion Hf as [|x l' Hn Hf']; subst. constructor.
+    - intro H. apply in_map_iff in H. destruct H as [[t' rc'] [E H]]. cbn in E. subst rc'.
+      apply Hn. apply in_map_iff. exists (t', rc). split; [|exact H]. cbn.
+      symmetry. apply (Hinj t t' rc); [now left|now right].
+    - apply IH; [exact Hf'|]. intros t1 t2 rc0 H1 H2. apply (Hinj t1 t2 rc0); now right. }
+  destruct (reset_cells (vms h) (hc h) (r_good _ _ _ HR) Hnd (r_vms _ _ _ HR)) as (G1 & C1).
+  assert (Hex : forall k, existsb (N.eqb k) (map snd (vms h)) = true <-> exists t, In (t, k) (vms h)).
+  { intro k. rewrite existsb_eqb_in, in_map_iff. split.
+    - intros [[t rc] [E H]]. cbn in E. subst. now exists t.
+    - intros [t H]. exists (t, k). now split. }
+  constructor; sp.
+  - exact G1.
+  - apply (r_nrec _ _ _ HR).
+  - apply (r_ncall _ _ _ HR).
+  - reflexivity.
+  - reflexivity.
+  - eapply recs_transfer; [apply (r_recs _ _ _ HR)|].
+    intros r a k rf Hk. apply cell_ok_frame; [reflexivity|]. rewrite C1.
+    destruct (existsb (N.eqb k) (map snd (vms h))) eqn:E; [|reflexivity].
+    apply Hex in E. destruct E as [t Ht]. exfalso. eapply (r_d_vr _ _ _ HR); eauto.
+  - intros t rc [].
+  - constructor.
+  - intros t [].
+  - intros c rf [].
+  - apply (r_d_recs _ _ _ HR).
+  - intros t r a c [].
+  - intros c rf [].
+  - intros k p H. unfold holds in H. rewrite C1 in H.
+    destruct (existsb (N.eqb k) (map snd (vms h))); [discriminate|]. now apply (r_ptr_fresh _ _ _ HR k).
+  - apply (r_done_fresh _ _ _ HR).
+  - intros t [].
+  - apply (r_rec_keys _ _ _ HR).
+  - apply (r_rec_fresh _ _ _ HR).
+Qed.
+
+(* ---- what the host sees ---------------------------------------------------------------------- *)
+Lemma obs_eq h s : R h s [] -> heap_obs h = s_obs s.
+Proof.
+  intro HR. unfold heap_obs, s_obs. f_equal; [f_equal|].
+  - generalize (r_recs _ _ _ HR). generalize (recs h) (srecs s).
+    induction 1 as [|[k x] [k' y] l sl Hp Hf IH]; cbn [map]; [reflexivity|].
+    f_equal; [|exact IH]. destruct Hp as (E1 & E2 & E3). cbn [fst snd] in *. subst k'. f_equal.
+    unfold rec_toks, srec_toks. rewrite E2. f_equal.
+    destruct (rslot x) as [c|], (sslot y) as [rf|]; try tauto.
+    unfold cell_ok in E3. unfold cell_tok. rewrite E3. f_equal.
+    unfold sref_val, sref_tok. destruct rf as [t|]; [|reflexivity].
+    destruct (lookup t (done s)) as [[d|]|]; reflexivity.
+  - rewrite (r_ninst _ _ _ HR), <- (r_alive _ _ _ HR). now rewrite map_length.
+  - apply (r_good _ _ _ HR).
+Qed.
+
+Lemma alive_eq t h s xs : R h s xs -> thread_alive t h = s_alive t s.
+Proof.
+  intro HR. unfold thread_alive, s_alive.
+  destruct (lookup t (vms h)) as [rc|] eqn:El.
+  - symmetry. apply (alive_iff _ _ _ t HR). exists rc. now apply lookup_in.
+  - destruct (memN t (alive s)) eqn:E; [|reflexivity].
+    apply (alive_iff _ _ _ t HR) in E. destruct E as [rc H].
+    apply (vms_lookup_in _ _ _ t rc HR) in H. congruence.
+Qed.
+
+Lemma R_init : R heap_init store_init [].
+Proof.
+  constructor; cbn; try constructor; try (intros; contradiction); try reflexivity.
+  - constructor; cbn.
+    + intros p l H. rewrite get_empty in H. discriminate.
+    + intros c p _ H. unfold holds in H. cbn in H. rewrite get_empty in H. discriminate.
+    + intros. apply get_empty.
+  - intros c p H. unfold holds in H. cbn in H. rewrite get_empty in H. discriminate.
+  - intros t x H. discriminate.
 Qed.
